@@ -673,3 +673,13 @@ func isCanary(ax *Axiom) bool {
 	}
 	return false
 }
+
+// relevantAxiomNames: the axioms / lemmas an obligation's hypotheses would include (for the lemma-closure bookkeeping).
+func (eng *Engine) relevantAxiomNames(o *Obligation) ([]*Term, []string) {
+	var hyps []*Term
+	if o.exec != nil {
+		hyps = append(hyps, o.exec.assumes[:o.NAssume]...)
+	}
+	core := append(append([]*Term{}, hyps...), o.PC, Not(o.Goal))
+	return eng.relevantAxioms(core, "", nil)
+}
